@@ -7,7 +7,7 @@ import vlib
 def selftest(rows):
     muts = []
     for t in rows:
-        if t["windows"] and len(muts) < 3 and t["V"] >= 1000:
+        if t["windows"] and len(muts) < 3 and t["V"] >= 1000 and t["windows"][0]["S"] >= 500 and t["via"] != "rates-jitter":
             m = copy.deepcopy(t)
             m["windows"][0]["S"] = int(m["windows"][0]["S"] * 0.9)      # a tenth of the volume lost
             muts.append(m)
@@ -21,7 +21,7 @@ def selftest(rows):
             m = copy.deepcopy(t)
             ws = m["windows"]
             ws[0]["S"], ws[1]["S"] = ws[1]["S"], ws[0]["S"]              # weights applied to the wrong window
-            if ws[0]["wk"] != ws[1]["wk"]:
+            if ws[0]["wk"] != ws[1]["wk"] and abs(ws[0]["S"] - ws[1]["S"]) > 4 * max(ws[0]["tol"], ws[1]["tol"]) and t["via"] != "rates-jitter":
                 muts.append(m)
     return muts
 
